@@ -79,6 +79,8 @@ def tagged_dropins_all_erased(ctx):
 
 
 def run(ctx):
+    from .C07 import engine_fire_rule
+    engine_fire_rule(ctx)
     from .C02 import disabled_does_nothing
     disabled_does_nothing(ctx)
     # locals / parameters the rules below refer to by name (a rename makes the analysis 'broken', never a violation)
